@@ -409,7 +409,8 @@ def check(pid, prop, tier, seed, n, scratch, t0, only_index):
             notes.append(out[-3000:])
             rc = 0
         if rc != 0:
-            broken.append("driver failed (exit %d)" % rc)
+            why = re.search(r"^(fatal error: .*|panic: .*)$", out, re.M)
+            broken.append("driver failed (exit %d)%s" % (rc, (": the code under test crashed the process — " + why.group(1)[:200]) if why else ""))
             notes.append(out[-3000:])
             driver_ok = False
         elif os.path.exists(os.path.join(COQ, "corr", prop["corr"] + ".vo")):
